@@ -65,7 +65,7 @@ def judge(c, calls, scen_by_id, name="outcome-contract"):
                 bad = [x for _, _, x in c2.rec if x["outcome"] not in ("value", "error") or x["alloc"] > 33554432 + 64 * x["len"] or x["ms"] > 3000 + 20 * (x["len"] // 1024)]
                 return bool(bad)
             c.reproduce(fam, sid, still_bad, env=env_of())
-        c.report(key, "%s on %s" % (what, rec["entry"]), {"family": fam, "scenario": scen_by_id.get((fam, sid)), "call": rec})
+        c.report(key, "%s on %s" % (what, rec["entry"]), dict({"family": fam, "scenario": scen_by_id.get((fam, sid)), "call": rec}, **(c.rp(fam, scen_by_id[(fam, sid)], judge="outcome") if scen_by_id.get((fam, sid)) else {})))
     return len(calls.rec), len(rejected)
 
 
